@@ -157,17 +157,21 @@ Proof.
   destruct Ht as [->|Ht]; [left; reflexivity|right; exact Ht].
 Qed.
 
-Definition clean_packet_b (tmps : list bytes) (pk : packet) : bool :=
+Definition clean_packet_b (tmps : list bytes) (fl : rfilter) (pk : packet) : bool :=
   match pk with
-  | PStat (Some s) => forallb (fun t => negb (mem_bytes t (comps (st_path s)))) (default_tmp :: tmps)
+  | PStat (Some s) =>
+    forallb (fun t => negb (mem_bytes t (comps (st_path s)))) (default_tmp :: tmps)
+    && (negb (DwP.hardlink_branch s) || f_rej fl (st_path s) || negb (f_rej fl (st_linkname s)))
   | _ => true
   end.
 
-Lemma clean_packets_b_ok tmps pks : forallb (clean_packet_b tmps) pks = true -> Forall (clean_packet tmps) pks.
+Lemma clean_packets_b_ok tmps fl pks : forallb (clean_packet_b tmps fl) pks = true -> Forall (clean_packet tmps fl) pks.
 Proof.
   intros H. apply Forall_forall. intros pk Hin. rewrite forallb_forall in H. pose proof (H pk Hin) as X.
   destruct pk as [[s|]| | | |]; simpl; auto.
-  unfold clean_packet_b in X. rewrite forallb_forall in X. intros t Ht Hc.
-  assert (Hin' : In t (default_tmp :: tmps)) by (destruct Ht as [->|Ht]; [left; reflexivity|right; exact Ht]).
-  pose proof (X t Hin') as Y. apply negb_true_iff in Y. apply mem_bytes_In_iff in Hc. congruence.
+  unfold clean_packet_b in X. apply andb_true_iff in X. destruct X as [X Y]. rewrite forallb_forall in X. split.
+  - intros t Ht Hc.
+    assert (Hin' : In t (default_tmp :: tmps)) by (destruct Ht as [->|Ht]; [left; reflexivity|right; exact Ht]).
+    pose proof (X t Hin') as Z. apply negb_true_iff in Z. apply mem_bytes_In_iff in Hc. congruence.
+  - intros Hhb Hrj. rewrite Hhb, Hrj in Y. simpl in Y. apply negb_true_iff in Y. exact Y.
 Qed.
